@@ -307,6 +307,18 @@ impl TypedProgram {
                     }
                 }
             }
+            // Later const definitions can be defined in terms of this one:
+            match const_def.ty {
+                Type::Unsigned(_) => {
+                    let n = resolve_const_expr_unsigned(&const_def.value, &consts_unsigned);
+                    consts_unsigned.insert(const_name.clone(), n);
+                }
+                Type::Signed(_) => {
+                    let n = resolve_const_expr_signed(&const_def.value, &consts_signed);
+                    consts_signed.insert(const_name.clone(), n);
+                }
+                _ => {}
+            }
         }
         let output_gates = compile_block(&fn_def.body, self, &mut env, &mut circuit);
         Ok((circuit.build(output_gates), fn_def, const_sizes))
@@ -321,6 +333,7 @@ macro_rules! make_resolve_const_function {
         ) -> $const_ty {
             match expr {
                 ConstExprEnum::NumUnsigned(n, _) => *n as $const_ty,
+                ConstExprEnum::NumSigned(n, _) => *n as $const_ty,
                 ConstExprEnum::ExternalValue { party, identifier } => *consts_unsigned
                     .get(&format!("{party}::{identifier}"))
                     .unwrap(),
@@ -350,8 +363,8 @@ macro_rules! make_resolve_const_function {
                 ConstExprEnum::ConstExprIdent(ident) => *consts_unsigned
                     .get(ident)
                     .expect("Identifier existence checked during type cheking"),
-                ConstExprEnum::True | ConstExprEnum::False | ConstExprEnum::NumSigned(_, _) => {
-                    panic!("Not a signed const expr: {expr:?}")
+                ConstExprEnum::True | ConstExprEnum::False => {
+                    panic!("Not a numeric const expr: {expr:?}")
                 }
             }
         }
